@@ -67,7 +67,7 @@ package base
 //@   trusted
 //@   pure
 //@ func (Threshold).VoteResult
-//@   prop C01
+//@   prop C01, C02
 //@   requires decimal1(t, 510, 1000) && 1 <= quorum && quorum <= 4294967296
 //@   ensures r0 == fst(FindVoteResult(quorum, t.Threshold(quorum), set)) && r1 == snd(FindVoteResult(quorum, t.Threshold(quorum), set))
 
